@@ -93,8 +93,17 @@ def oracle(case, res, names):
         base = {f for f in rest_m if re.fullmatch(r"Sdai" + u + r"(\.h|\.cc|_unity_(entities|types)\.cc)", f)}
         suf = {f for f in rest_u if re.fullmatch(r"Sdai" + u + r"_\d+(\.h|\.cc|_unity_(entities|types)\.cc)", f)}
         if base and suf:
-            found.append(("multipass-suffix", f"exp2cxx printed schema {n} in several passes and named its files {sorted(suf)[:4]}…, "
-                                              f"the scanner lists {sorted(base)[:4]}… which are never created"))
+            # decided from the SCHEMA, not from the symptom: several passes are legitimate only for a schema of a
+            # multi-schema file that has an interface clause (it may depend on enum/select/supertypes of another schema)
+            decls = dict(case.ast or []).get(n, [])
+            may_depend = len(names) > 1 and any(l.startswith(("ent ", "type ")) and l.endswith(" 1") for l in decls)
+            if may_depend:
+                found.append(("multipass-suffix", f"exp2cxx printed schema {n} in several passes and named its files {sorted(suf)[:4]}…, "
+                                                  f"the scanner lists {sorted(base)[:4]}… which are never created"))
+            else:
+                found.append(("multipass-in-self-contained-schema",
+                              f"schema {n} refers to nothing outside itself, yet exp2cxx printed it in several passes ({sorted(suf)[:4]}…); "
+                              f"the scanner lists {sorted(base)[:4]}… which are never created"))
             rest_m -= base; rest_u -= suf
         if n in empty:
             mine = {f for f in rest_m if re.fullmatch(r"Sdai" + u + r"(\.h|\.cc|Names\.h|\.init\.cc|_unity_(entities|types)\.cc)", f)}
@@ -113,6 +122,46 @@ def oracle(case, res, names):
                ";created-not-listed=" + ",".join(sorted({anon(f) for f in rest_u})))
         found.append((key, f"listed in CMakeLists.txt but not created by exp2cxx: {sorted(rest_m)[:8]}; created but listed nowhere: {sorted(rest_u)[:8]}"))
     return found
+
+
+def history_oracle(b, case, res, root):
+    """The scanner's output must be a function of the schema file's content only — not of what an earlier run left in
+    the output directory, nor of time stamps.  History: scan a *variant* of the file (one more entity) at the same path in
+    a fresh directory, then put the real content back with an OLD modification time and scan again in the same
+    directory; the build descriptions must equal those of the fresh-directory scan (`res`).  -> None or (key, what)"""
+    if case.exp_path or case.text is None:
+        return None
+    m = re.search(r"(?im)^\s*END_SCHEMA\s*;", case.text)
+    if not m:
+        return None
+    variant = case.text[:m.start()] + "ENTITY zz_history_probe_entity;\n  zz_probe_attr : INTEGER;\nEND_ENTITY;\n" + case.text[m.start():]
+    hd = os.path.join(root, "sc-history")
+    os.makedirs(hd)
+    exp = res["exp"]
+    env = b.env()
+    try:
+        open(exp, "w").write(variant)
+        r1 = subprocess.run([G.build_scanner(b), exp], cwd=hd, env=env, capture_output=True, text=True, errors="replace")
+        open(exp, "w").write(case.text)
+        os.utime(exp, (1_577_836_800, 1_577_836_800))      # 2020-01-01: older than the lists written a moment ago
+        r2 = subprocess.run([G.build_scanner(b), exp], cwd=hd, env=env, capture_output=True, text=True, errors="replace")
+    finally:
+        open(exp, "w").write(case.text)
+    if r1.returncode != 0 or r2.returncode != 0:
+        return None
+    for d, want in res["cmakes"].items():
+        p = os.path.join(hd, d, "CMakeLists.txt")
+        got = open(p, errors="replace").read() if os.path.exists(p) else None
+        if got != want:
+            w, g = want.split("\n"), (got or "").split("\n")
+            i = next((i for i in range(min(len(w), len(g))) if w[i] != g[i]), min(len(w), len(g)))
+            return ("scanner-depends-on-previous-output",
+                    f"{d}/CMakeLists.txt after the history [scan a revision with one more entity; restore this file with an older mtime; scan again "
+                    f"in the same directory] differs from a scan in an empty directory at line {i+1}: {g[i:i+1]} vs {w[i:i+1]}")
+    out2 = [os.path.basename(l) for l in r2.stdout.split("\n") if l]
+    if out2 != [os.path.basename(l) for l in res["dirs_out"]]:
+        return ("scanner-depends-on-previous-output", f"stdout after the history {out2} vs fresh {res['dirs_out']}")
+    return None
 
 
 # ---------------------------------------------------------------- the model side
@@ -259,6 +308,24 @@ def generated_cases(ctx, n):
     return out
 
 
+def renamed_in_select_cases(ctx, n):
+    """renamed enumerations / selects reached from SELECTs under many identifier permutations: the visiting order of
+    checkTypes (= hash order of the names) decides whether a select is examined before the renamed enumeration it uses"""
+    r = ctx.rng
+    words = ["pick", "fitting", "finish", "marker", "colour", "shade", "tone", "hue", "grade", "kind", "choice", "option", "variant",
+             "coating", "panel", "part", "item", "unit", "lamp", "signal", "aspect", "mode", "state", "level", "rank", "tier", "sort",
+             "treatment", "indicator", "surface", "layer", "cover", "tag", "label", "mark", "sign", "code", "key", "slot", "port"]
+    out = []
+    for i in range(n):
+        ws = r.sample(words, 8)
+        if r.random() < 0.5:
+            ws = [w + r.choice(["", "_a", "_b", "_1", "_x2", "_type"]) for w in ws]
+        names = dict(zip(["enum", "ren", "ren2", "sel", "sel2", "rsel", "ent", "sub"], ws))
+        f = SG.renamed_in_select_schema(names, variant=i % 4, schema_name=r.choice(["paint_shop", "signal_plan", "ren_in_sel"]))
+        out.append(Case(f"renamed-in-select-{ctx.seed}-{i}", f.text(), "renamed_types_reached_from_selects", ast=G.ast_from_gen(f), gen=f))
+    return out
+
+
 def shipped_cases(b, quick):
     data = os.path.join(b.src, "data")
     files = sorted(glob.glob(os.path.join(data, "*", "*.exp"))) + sorted(glob.glob(os.path.join(b.src, "test", "unitary_schemas", "*.exp")))
@@ -295,7 +362,8 @@ def examine(ctx, b, case, model_exe, idx):
         return
     names = schema_names(case, b)
     ctx.count(1, key=case.name if case.exp_path else case.text)
-    ctx.hist("inputs", "shipped" if case.exp_path else ("generated" if case.gen is not None and case.name.startswith("gen-") else "fixed"))
+    ctx.hist("inputs", "shipped" if case.exp_path else ("generated" if case.gen is not None and case.name.startswith("gen-") else
+                                                          "renamed-in-select" if case.name.startswith("renamed-in-select") else "fixed"))
     ctx.hist("schemas-per-file", str(min(len(names), 4)) + ("+" if len(names) >= 4 else ""))
     if case.gen is not None:
         for ft in case.gen.features():
@@ -315,6 +383,15 @@ def examine(ctx, b, case, model_exe, idx):
                        "express": mc.text if mc.text is not None else f"<shipped file {mc.exp_path}>",
                        "how": "run `schema_scanner <file>` in an empty directory and `exp2cxx <file>` in another; compare the file names in "
                               "the set(..._hdrs/_impls ...) blocks of every <dir>/CMakeLists.txt with the files exp2cxx created"})
+    if o is None or all(F.lookup(ctx.pid, k) for k, _ in o):
+        h = history_oracle(b, case, res, root)
+        if h is not None and len(ctx.violations) < 3:
+            ctx.violation(h[0], f"[{case.name}] {h[1]}",
+                          {"file_name": os.path.join(case.subdir, case.stem + ".exp"), "express": case.text,
+                           "history": ["write <file> := express with `ENTITY zz_history_probe_entity; zz_probe_attr : INTEGER; END_ENTITY;` inserted before the first END_SCHEMA",
+                                       "schema_scanner <file>   (in directory D)", "write <file> := express; touch -d 2020-01-01 <file>",
+                                       "schema_scanner <file>   (again in D)", "compare D/<short>/CMakeLists.txt with a scan in an empty directory and with the files exp2cxx creates"]})
+        ctx.hist("oracle", "history clause (scanner output independent of earlier output / mtimes)")
     dis = correspondence(ctx, case, res, names, model_exe)
     if dis:
         ctx._disagree.append((case.name, dis[0], o))
@@ -338,7 +415,7 @@ def run(ctx):
         "compared with the observed pass suffixes",
         "identifiers are ASCII (the lexer rejects anything else); ToUpper/ToLower are the C-locale functions",
     ]
-    ctx.lean("StepModel.Props.C17", exes=["m_c17"], extractors=["scanner", "exphash"])
+    ctx.lean("StepModel.Props.C17", exes=["m_c17"], extractors=["scanner", "exphash", "cxxpass"])
     b = ctx.build("plain")
     model_exe = ctx.model_exe("m_c17")
     if not os.path.exists(model_exe):
@@ -350,6 +427,7 @@ def run(ctx):
         cases.append(Case("corpus:" + os.path.basename(p), d["express"], d.get("stem", "schema"), d.get("subdir", ""),
                           ast=[(n, ds) for n, ds in d["ast"]]))
     cases += fixed_cases()
+    cases += renamed_in_select_cases(ctx, 40 if quick else 400)
     cases += generated_cases(ctx, 40 if quick else 300)
     cases += shipped_cases(b, quick)
     t0 = time.time()
@@ -360,7 +438,7 @@ def run(ctx):
     ctx.cov["rule"] = ("per input file: CMakeLists.txt of every schema byte-compared with the model, stdout directory lines, the set of files "
                        "exp2cxx created vs the model (pass suffixes predicted when no cross-schema dependency, observed otherwise); "
                        "fixed inputs cover every defined-type shape incl. renamed enum/select, the three known defect shapes and exp2cxx's identifier-length gate (232 refused, 200 accepted); "
-                       "generated: 1-3 schemas per file, REFERENCE FROM, mixed-case and case-colliding identifiers, file names/dirs exercising makeShortName")
+                       "renamed enumerations/selects reached from selects (item, attribute of an entity item, aggregate, inherited) under 40/400 identifier permutations; generated: 1-3 schemas per file, REFERENCE FROM, mixed-case and case-colliding identifiers, file names/dirs exercising makeShortName")
     if cases:
         ctx.sample({"input": cases[0].name, "express_head": (cases[0].text or "")[:300]})
     gen = [c for c in cases if c.name.startswith("gen-")]
@@ -377,7 +455,7 @@ def replay(ctx, path):
     d = json.load(open(path))
     r = d.get("replay", d)
     ctx._disagree = []
-    ctx.lean("StepModel.Props.C17", exes=["m_c17"], extractors=["scanner", "exphash"])
+    ctx.lean("StepModel.Props.C17", exes=["m_c17"], extractors=["scanner", "exphash", "cxxpass"])
     b = ctx.build("plain")
     fn = r["file_name"]
     if r["express"].startswith("<shipped file"):
